@@ -210,7 +210,11 @@ func runCrashWorkload(cfg CrashCfg, seed uint64, cas int, res *CrashRes) *crashW
 			// background shrinker in several transactions
 			r := doOne(&Op{K: OpCreate, H: s.srv.Root, Name: "big"})
 			if r.Stat == stOK {
-				for k := 0; k < 9; k++ {
+				// 576, 1152 or 1664 blocks: with more than ~1030 blocks a background
+				// transaction (not the request's own) releases the double-indirect
+				// root and ends inside the indirect range
+				chunks := []int{9, 18, 9, 26}[(cas/2)%4]
+				for k := 0; k < chunks; k++ {
 					s.nextUid++
 					n := uint32(64 * BlockSize)
 					doOne(&Op{K: OpWrite, H: r.FH, Off: uint64(k) * 64 * BlockSize, Count: n, DataLen: n, Uid: s.nextUid, Stable: []int{0, 2}[k%2]})
